@@ -45,7 +45,18 @@ impl<'a> Doc<'a> {
         let sem = refsem::analyze(&item.program);
         // the token-per-line variant documents every declaration with two comment lines
         let two_lines = layout == Layout::Lines;
-        let r = render(&pr.toks, layout, &gaps, &|g| if two_lines { format!(" doc{}$\n second{}$", g, g) } else { format!(" doc{}$", g) });
+        // the pretty variant's comments contain characters that Unicode calls line separators
+        // (LSP does not) and one outside the BMP
+        let exotic = layout == Layout::Pretty;
+        let r = render(&pr.toks, layout, &gaps, &|g| {
+            if two_lines {
+                format!(" doc{}$\n second{}$", g, g)
+            } else if exotic {
+                format!(" doc{}\u{2028}x\u{85}y\u{2029}\u{1f600}$", g)
+            } else {
+                format!(" doc{}$", g)
+            }
+        });
         Doc { item, pr, sem, r, layout, gaps }
     }
     pub fn text(&self) -> &str {
